@@ -502,7 +502,7 @@ def run_circuits(shard, rec, B):
                 rec.check("bwd.record_kept", kept[-nm:] == record and len(kept) >= nm, case, True, expected=record, observed=kept[-nm:])
                 for lay in inserted:
                     if hasattr(lay, "result") and hasattr(lay, "log2prob") and not hasattr(lay, "gates"):
-                        og, op_, orr = O.random_tableau(rng, N)
+                        og, op_, orr = O.random_tableau(rng, N) if N <= 12 else O.random_tableau(rng, N, nrot=3)
                         lay.forward(B.State(og, op_, orr))
                 S2 = B.State(sg.copy(), sp.copy(), 0)
                 try:
